@@ -56,6 +56,11 @@ def order_sensitive_docs(rng, n, idx):
         elif c < 0.85 and len(live) > 1:
             a, b = rng.sample(live, 2)
             d = B.msg_doc('roStoryMove', 5, ids=[a], target=b)
+        elif c < 0.92 and k > 0:
+            # roReplace: wipes what earlier messages built, so its place in the order matters
+            live = ['X%d' % v, 'Y%d' % v]
+            d = gen.grid_ro(live, 'none').replace('roCreate', 'roReplace').replace(
+                '<messageID>1</messageID>', '<messageID>5</messageID>')
         elif live:
             d = B.msg_doc('roStorySend', 5, story_ref=rng.choice(live), body=[B.E('p', 'v%d' % v)],
                           fields=[B.E('storySlug', 'sent at %d' % v), 'BODY'])
@@ -87,10 +92,11 @@ def run(s):
                 perms += [tuple(range(n)), tuple(reversed(range(n)))]
             how = hows[i % 3]
             texts = set()
+            name_rank = rng.sample(range(100, 999), n)     # names unrelated to message order
             for pi, perm in enumerate(perms):
                 pdocs = [docs[j] for j in perm]
                 # file / key names must not leak the order
-                names = ['n%03d.mos.xml' % ((j * 7 + 3) % 1000) for j in perm]
+                names = ['n%03d.mos.xml' % name_rank[j] for j in perm]
                 mc, cerr = K.make_collection(s, pdocs, how, True, tmpdir, names=names)
                 wit = {'type': 'perm', 'docs': pdocs, 'how': how}
                 s.evaluations += 1
